@@ -158,6 +158,13 @@ theorem xml_handle_parent_live (ops : List AslModel.XmlOwn.Op) (v n p : Nat)
   let r := xml_parent_never_dangles ops n p h
   ⟨r.1, r.2.1⟩
 
+/-- NOT PROVED (computed by the driver after every op of every `own` history and compared with what ASan/LSan see on
+    the code): no history uses a dead node or lowers a zero count, and every live node's stored count is the number of
+    handle variables holding it plus the number of slots of live child arrays holding it -/
+def ownership_counts_full : Prop :=
+  ∀ ops : List AslModel.XmlOwn.Op, (AslModel.XmlOwn.run .init ops).fault = false ∧
+    AslModel.XmlOwn.countsOK (AslModel.XmlOwn.run .init ops) = true
+
 /-- non-vacuity: `a << b` gives `b` a non-null parent (hypothesis satisfiable) ... -/
 example : ((AslModel.XmlOwn.run .init [.new 0, .new 1, .append 0 1]).node 1).parent = some 0 ∧
     (AslModel.XmlOwn.run .init [.new 0, .new 1, .append 0 1]).var 1 = some 1 := by decide
